@@ -106,6 +106,10 @@ def gen_cases(tier: str, seed: int) -> list[dict]:
             cases.append({"payload": pl, "nkeys": 4, "workers": 0, "fp": {"kind": "subset", "subset": sub}})
     cases.append({"payload": "scan_ss", "nkeys": 4, "workers": 2, "fp": {"kind": "subset", "subset": [1, 3]}})
     cases.append({"payload": "scan_ss", "nkeys": 3, "workers": 0, "fp": {"kind": "none"}})
+    # every public routine that accepts cache= (found by signature, so a new one is picked up), sequential-ish and parallel
+    for fe in cache_frontends():
+        for w in (1, 2):
+            cases.append({"payload": f"frontend:{fe}", "nkeys": 3, "workers": w, "fp": {"kind": "frontend"}})
     for nk in (2, 3, 4):
         for w in (0, 2):
             cases.append({"payload": "small", "nkeys": nk, "workers": w, "fp": {"kind": "same_process"}})
@@ -248,6 +252,8 @@ def run_case(case: dict) -> dict:
     ident = {k: v for k, v in case.items() if k not in ("seed", "idx")}
     try:
         os.environ.pop("VERIF_CALLLOG", None)
+        if fp["kind"] == "frontend":
+            return _frontend(case, ident, root, cdir, calllog, counters)
         expected = run_workload(payload, nkeys, None, 0)  # cache-free oracle
         if fp["kind"] == "same_process":
             return _same_process_history(case, ident, root, cdir, expected, counters)
@@ -518,6 +524,104 @@ def _interrupted_then_rerun(case: dict, ident: dict, root: str, cdir: str, expec
     if not viols and _calls(calllog):
         viols.append(core.viol("a run over a complete cache computed something", None, case=ident, computed=_calls(calllog)[:5]))
     return core.result(sig=core.sha(ident), nontrivial=bool(out["raised"]), violations=viols[:2], counters=counters)
+
+
+def cache_frontends() -> list[str]:
+    """Public routines of mxlpy.scan and mxlpy.mc whose signature has a `cache` parameter."""
+    import inspect
+
+    from mxlpy import mc, scan
+
+    out = []
+    for mod in (scan, mc):
+        for n, f in inspect.getmembers(mod, inspect.isfunction):
+            if f.__module__ == mod.__name__ and not n.startswith("_") and "cache" in inspect.signature(f).parameters:
+                out.append(f"{mod.__name__}.{n}")
+    return sorted(out)
+
+
+def _comparable(x):  # noqa: ANN001, ANN202
+    if isinstance(x, (pd.DataFrame, pd.Series)):
+        return ([str(i) for i in x.index], [str(c) for c in getattr(x, "columns", [])], np.asarray(x, dtype=float).round(10).tolist())
+    return tuple(_comparable(getattr(x, a)) for a in ("variables", "fluxes") if hasattr(x, a))
+
+
+def _call_frontend(name: str, cache, workers: int, logged: bool):  # noqa: ANN001, ANN202
+    import importlib
+    import inspect
+
+    from mxlpy import make_protocol
+
+    modname, fname = name.rsplit(".", 1)
+    f = getattr(importlib.import_module(modname), fname)
+    pars = inspect.signature(f).parameters
+    draws = pd.DataFrame({"k1": [0.5, 0.75, 1.0]}, index=[3, 1, 2])
+    kw: dict = {"cache": cache}
+    if "mc_to_scan" in pars:
+        kw["mc_to_scan"] = draws
+        if fname == "scan_steady_state":
+            kw["to_scan"] = pd.DataFrame({"k2": [0.6, 0.4]})
+        elif "to_scan" in pars:
+            kw["to_scan"] = ["x0", "x1"] if fname == "variable_elasticities" else ["k0", "k2"]
+    else:
+        kw["to_scan"] = draws
+    if "variables" in pars:
+        kw["variables"] = {"x0": 1.2, "x1": 0.7}
+    if "protocol" in pars:
+        kw["protocol"] = make_protocol([(1.0, {"k0": 1.0}), (1.5, {"k0": 2.0})])
+    if "time_points" in pars:
+        kw["time_points"] = np.linspace(0, 2, 5)
+    if "max_workers" in pars:
+        kw["max_workers"] = workers
+    if "parallel" in pars:
+        kw["parallel"] = workers > 1
+    if "disable_tqdm" in pars:
+        kw["disable_tqdm"] = True
+    if logged and "worker" in pars:
+        kw["worker"] = cachefn.LoggedWorker(modname, fname)
+    return _comparable(f(_scan_model(), **kw)), len(draws), "worker" in pars
+
+
+def _frontend(case: dict, ident: dict, root: str, cdir: str, calllog: str, counters: dict) -> dict:
+    """Through every routine that takes cache=: the cached run equals the run without, leaves a non-empty result file per
+    row, and a repeated run returns the same without computing (no worker call, no file rewritten)."""
+    from mxlpy.parallel import Cache
+
+    name, workers = case["payload"].split(":", 1)[1], case["workers"]
+    viols: list[dict] = []
+    os.environ["VERIF_CALLLOG"] = calllog
+    plain, nrows, has_worker = _call_frontend(name, None, workers, logged=False)
+    first, _, _ = _call_frontend(name, Cache(tmp_dir=__import__("pathlib").Path(cdir)), workers, logged=True)
+
+    def listing() -> list:
+        out = []
+        for dp, _, fs in os.walk(cdir):
+            out += [(os.path.relpath(os.path.join(dp, f), cdir), os.path.getsize(os.path.join(dp, f)), os.stat(os.path.join(dp, f)).st_mtime_ns) for f in fs]
+        return sorted(out)
+
+    files1, calls1 = listing(), _calls(calllog)
+    if first != plain:
+        viols.append(core.viol("results with a cache differ from results without", None, case=ident))
+    stored = [f for f in files1 if f[1] > 0 and ".tmp" not in f[0]]
+    if len(stored) < nrows:
+        viols.append(core.viol("a completed caching run left fewer result files than rows", None, case=ident, files=[f[:2] for f in files1], rows=nrows))
+    if has_worker and len(calls1) != nrows:
+        viols.append(core.viol("first caching run did not compute every row exactly once", None, case=ident, calls=len(calls1), rows=nrows))
+    second, _, _ = _call_frontend(name, Cache(tmp_dir=__import__("pathlib").Path(cdir)), workers, logged=True)
+    files2, calls2 = listing(), _calls(calllog)
+    if second != plain:
+        viols.append(core.viol("repeated run returns different results from disk", None, case=ident))
+    if len(calls2) != len(calls1):
+        viols.append(core.viol("repeated run recomputed keys whose result file exists", None, case=ident, recomputed=calls2[len(calls1):]))
+    if files2 != files1 and len(stored) >= nrows:
+        viols.append(core.viol("repeated run rewrote or added result files although every row was stored", None, case=ident,
+                               before=[f[:2] for f in files1], after=[f[:2] for f in files2]))
+    counters["frontend_routines_run_twice_on_one_cache"] = 1
+    counters[f"frontend:{name}"] = 1
+    counters["frontend_result_files_seen"] = len(stored)
+    counters["frontend_worker_calls_logged"] = len(calls2)
+    shutil.rmtree(root, ignore_errors=True)
+    return core.result(sig=core.sha(ident), nontrivial=True, violations=viols[:3], counters=counters, info={"frontend": name, "files": len(stored)})
 
 
 def _calls(path: str) -> list[str]:
